@@ -152,7 +152,8 @@ func (t *tree) materialize(root string) error {
 		n := t.nodes[i]
 		if n.kind == 'f' || n.kind == 'd' {
 			mt := time.Unix(n.mtime, 0)
-			if err := os.Chtimes(filepath.Join(root, n.path), mt, mt); err != nil {
+			// atime is set to a recognisable value different from mtime (see lockClient.maskTimes)
+			if err := os.Chtimes(filepath.Join(root, n.path), time.Unix(n.mtime+atimeShift, 0), mt); err != nil {
 				return err
 			}
 		}
@@ -262,6 +263,9 @@ func decodeTree(s string) *tree {
 }
 
 const recentMarker = ^uint64(0)
+
+// atime of every generated object is its mtime + atimeShift
+const atimeShift = 1000
 
 func maskRecent(v uint64, sessionStart int64) uint64 {
 	if int64(v) > sessionStart-3600 && int64(v) < sessionStart+3600 {
